@@ -299,7 +299,8 @@ Theorem first_free_fresh : forall nm taken, ~ In (first_free nm taken) taken.
 Proof. intros nm taken. unfold first_free. apply (first_free_aux_fresh nm taken _ 2 taken); auto. Qed.
 
 (* every numbered alias do_join invents is a name no earlier source of the statement carries (FROM items, UPDATE target,
-   WITH names, earlier joins), and the numbered aliases of one statement are pairwise distinct *)
+   earlier joins: whatever [taken] holds, and Query.rquery starts it with exactly these -- WITH names that are only defined
+   are not sources, pypika 2def80d), and the numbered aliases of one statement are pairwise distinct *)
 Theorem numbered_fresh : forall base l taken own,
   (forall s, In s (numbered_of (jsources l) (fst (name_joins base taken own l))) -> ~ In s taken)
   /\ NoDup (numbered_of (jsources l) (fst (name_joins base taken own l))).
@@ -321,6 +322,16 @@ Proof.
       cbn [fst hd tl app] in *. destruct IH as [I1 I2]. split; [|exact I2]. intros s Hs Hin. apply (I1 s Hs). right. exact Hin.
   - match goal with |- context [name_joins base ?T own r] => specialize (IH T own); destruct (name_joins base T own r) as [a b] end.
     cbn [fst hd tl app] in *. destruct IH as [I1 I2]. split; [|exact I2]. intros s Hs Hin. apply (I1 s Hs). right. exact Hin.
+Qed.
+Theorem name2_fresh : forall x s, In s (name2_names x) -> ~ In s (base_names x).
+Proof.
+  intros x s. destruct x; cbn [name2_names base_names]; try (intros []); unfold stmt_names, sel_tk, upd_tk.
+  - destruct (name_from sub_count 0 from) as [fn n1]. cbn [fst].
+    pose proof (numbered_fresh (base_tables from) joins (src_names from fn) n1) as [F _].
+    destruct (name_joins (base_tables from) (src_names from fn) n1 joins). exact (F s).
+  - destruct (name_from sub_count 0 from) as [fn n1]. cbn [fst].
+    pose proof (numbered_fresh (tbl :: base_tables from) joins (tref_name tbl :: src_names from fn) n1) as [F _].
+    destruct (name_joins (tbl :: base_tables from) (tref_name tbl :: src_names from fn) n1 joins). exact (F s).
 Qed.
 Theorem name2_NoDup : forall x, NoDup (name2_names x).
 Proof.
